@@ -3,8 +3,8 @@ use serde::{Deserialize, Serialize};
 use crate::client::status::get_task_status;
 use crate::server::Senders;
 use crate::transfer::messages::{
-    JobDescription, JobDetail, JobInfo, JobSubmitDescription, JobTaskDescription, TaskIdSelector,
-    TaskSelector, TaskStatusSelector,
+    JobDescription, JobDetail, JobInfo, JobSubmitDescription, JobTaskDescription,
+    MAX_TASKS_NOT_FOUND, TaskIdSelector, TaskSelector, TaskStatusSelector,
 };
 use crate::worker::start::RunningTaskContext;
 use chrono::{DateTime, Utc};
@@ -210,22 +210,37 @@ impl Job {
                     Vec::new(),
                 ),
                 (TaskIdSelector::Specific(ids), status) => {
-                    let mut not_found = Vec::new();
-                    let mut tasks = Vec::with_capacity(ids.id_count() as usize);
-                    for task_id in ids.iter() {
-                        if let Some(info) = self.tasks.get(&JobTaskId::new(task_id)) {
-                            if match status {
-                                TaskStatusSelector::All => true,
-                                TaskStatusSelector::Specific(s) => {
-                                    s.contains(&get_task_status(&info.state))
-                                }
-                            } {
-                                tasks.push((JobTaskId::new(task_id), info.clone()));
+                    let has_status = |info: &JobTaskInfo| match status {
+                        TaskStatusSelector::All => true,
+                        TaskStatusSelector::Specific(s) => {
+                            s.contains(&get_task_status(&info.state))
+                        }
+                    };
+                    // The selector comes from a client, and it may contain many more ids than
+                    // the job has tasks (`0-4294967294` is a single range). Neither the memory
+                    // nor the time spent here may depend on the number of the selected ids.
+                    let mut tasks = Vec::new();
+                    if ids.id_count() as usize <= self.tasks.len() {
+                        for task_id in ids.iter().map(JobTaskId::new) {
+                            if let Some(info) = self.tasks.get(&task_id)
+                                && has_status(info)
+                            {
+                                tasks.push((task_id, info.clone()));
                             }
-                        } else {
-                            not_found.push(JobTaskId::new(task_id));
+                        }
+                    } else {
+                        for (task_id, info) in &self.tasks {
+                            if ids.contains(task_id.as_num()) && has_status(info) {
+                                tasks.push((*task_id, info.clone()));
+                            }
                         }
                     }
+                    let not_found = ids
+                        .iter()
+                        .map(JobTaskId::new)
+                        .filter(|task_id| !self.tasks.contains_key(task_id))
+                        .take(MAX_TASKS_NOT_FOUND)
+                        .collect();
                     (tasks, not_found)
                 }
             }
